@@ -50,7 +50,7 @@ CURSOR_FUNCS = {
 
 # ---------------------------------------------------------------------------------------------
 # cursor.rs  (C03, C19)
-for k, tier, tmo in ((2, "quick", 300), (3, "thorough", 900), (4, "thorough", 2400)):
+for k, tier, tmo in ((2, "quick", 300), (3, "quick", 900), (4, "thorough", 2400)):
     for fn in ("advance", "advance_by", "eat_char", "eat_while", "peek"):
         H(f"cur_{fn}_k{k}", CUR, ["C03", "C19"] if fn == "advance_by" else ["C03"],
           tier=tier, cfgs=("debug", "nodebug"), bound=f"any UTF-8 string of <= {k} code points; "
@@ -95,15 +95,15 @@ def LXH(name, props, tier, bound, funcs, timeout, mem=14, cfgs=("debug",), stubs
     HARNESSES[-1]["fixed"] = fixed
 
 LXH("lx_ws_k2", COMMON + ["C06", "C11"], "quick", "<= 2 code points, first is whitespace", ["Lexer::lex_ws", "Lexer::add_line", "Lexer::emit_token"], 600, cfgs=("debug", "nodebug"), contexts=["default"])
-LXH("lx_ws_k3", COMMON + ["C06", "C11"], "thorough", "<= 3 code points", ["Lexer::lex_ws"], 1200, contexts=["default"])
+LXH("lx_ws_k3", COMMON + ["C06", "C11"], "quick", "<= 3 code points", ["Lexer::lex_ws"], 1200, contexts=["default"])
 LXH("lx_cstyle_comment_k4", COMMON + ["C06", "C11", "C19"], "quick", "'/*' + <= 2 code points", ["Lexer::lex_cstyle_comment"], 900, cfgs=("debug", "nodebug"), fixed="/*", contexts=["default", "eval"])
-LXH("lx_cstyle_comment_k5", COMMON + ["C06", "C11", "C19"], "thorough", "'/*' + <= 3 code points", ["Lexer::lex_cstyle_comment"], 1800, cfgs=("debug", "nodebug"), fixed="/*", contexts=["default", "eval"])
+LXH("lx_cstyle_comment_k5", COMMON + ["C06", "C11", "C19"], "quick", "'/*' + <= 3 code points", ["Lexer::lex_cstyle_comment"], 1800, cfgs=("debug", "nodebug"), fixed="/*", contexts=["default", "eval"])
 LXH("lx_macro_comment_k4", COMMON + ["C06"], "quick", "'%*' + <= 2 code points", ["Lexer::lex_macro_comment"], 900, fixed="%*", contexts=["default", "arg_value"])
-LXH("lx_macro_comment_k5", COMMON + ["C06"], "thorough", "'%*' + <= 3 code points", ["Lexer::lex_macro_comment"], 1800, fixed="%*", contexts=["default", "arg_value"])
+LXH("lx_macro_comment_k5", COMMON + ["C06"], "quick", "'%*' + <= 3 code points", ["Lexer::lex_macro_comment"], 1800, fixed="%*", contexts=["default", "arg_value"])
 HEXS = ["hex::parse_sas_hex_string -> arbitrary Ok/Err (decoding excluded from C07)"]
 LXH("lx_single_quoted_k3", COMMON + ["C06", "C07", "C11", "C16"], "quick", "quote + <= 2 code points", ["Lexer::lex_single_quoted_str", "Lexer::resolve_string_literal_ending", "Lexer::resolve_string_literal_payload", "Lexer::add_string_literal_from_src"], 1200, stubs=HEXS, fixed="'", contexts=["quote", "eval", "arg_value"])
 LXH("lx_single_quoted_esc_k5", COMMON + ["C06", "C07", "C16"], "quick", "quote + escaped quote + <= 2 code points", ["Lexer::lex_single_quoted_str", "Lexer::resolve_string_literal_ending", "Lexer::resolve_string_literal_payload"], 1500, stubs=HEXS, fixed="'''", contexts=["quote", "eval"])
-LXH("lx_single_quoted_k4", COMMON + ["C06", "C07", "C11", "C16"], "thorough", "quote + <= 3 code points", ["Lexer::lex_single_quoted_str"], 2400, stubs=HEXS, fixed="'", contexts=["quote", "eval", "arg_value"])
+LXH("lx_single_quoted_k4", COMMON + ["C06", "C07", "C11", "C16"], "quick", "quote + <= 3 code points", ["Lexer::lex_single_quoted_str"], 2400, stubs=HEXS, fixed="'", contexts=["quote", "eval", "arg_value"])
 LXH("lx_single_quoted_k6", COMMON + ["C06", "C07", "C11", "C16"], "thorough", "quote + <= 5 code points", ["Lexer::lex_single_quoted_str"], 7200, mem=24, stubs=HEXS, fixed="'", contexts=["quote", "eval", "arg_value"])
 for k, tier, tmo in ((2, "quick", 900), (3, "thorough", 2400), (4, "thorough", 7200)):
     LXH(f"lx_unrestricted_k{k}", COMMON + ["C06", "C13", "C14"], tier, f"1 dispatcher-consumed char + <= {k-1} code points", ["Lexer::lex_macro_string_unrestricted", "is_macro_amp", "is_macro_percent"], tmo, stubs=XID, contexts=["semi_text"], mem=20 if k == 4 else 14)
@@ -112,8 +112,8 @@ for k, tier, tmo in ((2, "quick", 900), (3, "thorough", 2400), (4, "thorough", 7
     LXH(f"lx_str_call_scan_k{k}", COMMON + ["C06", "C07", "C13"], tier if k > 2 else "thorough", f"<= {k} code points; pnl any u32; mask symbolic", ["Lexer::lex_macro_string_in_str_call", "Lexer::resolve_string_literal_payload"], tmo + 1200, stubs=XID, contexts=["str_call"], mem=24 if k >= 3 else 16)
 LXH("lx_str_call_scan_esc_k3", COMMON + ["C06", "C07", "C13"], "thorough", "'%(' + <= 1 code point", ["Lexer::lex_macro_string_in_str_call"], 3000, stubs=XID, fixed="%(", contexts=["str_call"], mem=20)
 FIN = ["Lexer::finalize_lexing", "Lexer::lex_expected_token", "Lexer::handle_unterminated_str_expr", "Lexer::update_last_token"]
-for nm, tier in (("str_expect_eval_p0", "quick"), ("str_expect_eval_p2", "quick"), ("while_p1", "quick"), ("str_call_p2", "quick"), ("let_p0", "quick"), ("do_p0", "thorough"),
-                 ("if_paren_p1", "quick"), ("if_paren_p2", "thorough"), ("scan_p1", "quick"), ("copy_p0", "thorough"), ("nested_str_p0", "quick")):
+for nm, tier in (("str_expect_eval_p0", "quick"), ("str_expect_eval_p2", "quick"), ("while_p1", "quick"), ("str_call_p2", "quick"), ("let_p0", "quick"), ("do_p0", "quick"),
+                 ("if_paren_p1", "quick"), ("if_paren_p2", "thorough"), ("scan_p1", "quick"), ("copy_p0", "quick"), ("nested_str_p0", "quick")):
     LXH(f"lx_finalize_{nm}", ["C01", "C02", "C09", "C10", "C14"], tier, "end of input; stack shape constant, mode parameters (flags, booleans) symbolic; look-behind token symbolic", FIN, 1200, contexts=["eof"])
     HARNESSES[-1]["decoder"] = None
 LXH("twin_lx_finalize", ["C10", "C14"], "quick", "end of input", FIN, 600, expect="twin")
@@ -254,7 +254,7 @@ COST = {
     "buf_add_token_nightly_full": 25, "buf_add_token_nightly_spare": 25, "buf_bulk_vs_accessors_n1": 30, "buf_bulk_vs_accessors_n2": 60,
     "buf_bulk_vs_accessors_n3": 200, "buf_accessors_total_n1": 20, "buf_accessors_total_n2": 20, "buf_accessors_total_n3": 22, "twin_buf_bulk_vs_accessors": 25,
     "buf_line_col_vs_text_k3": 22, "buf_line_col_vs_text_k5": 26, "buf_into_detached": 25, "buf_checkpoint_rollback": 40,
-    "lx_ws_k2": 40, "lx_cstyle_comment_k4": 60, "lx_macro_comment_k4": 39, "lx_single_quoted_k3": 103, "lx_single_quoted_esc_k5": 161,
+    "lx_ws_k2": 40, "lx_ws_k3": 45, "lx_cstyle_comment_k4": 60, "lx_cstyle_comment_k5": 84, "lx_macro_comment_k4": 39, "lx_macro_comment_k5": 55, "lx_single_quoted_k3": 103, "lx_single_quoted_k4": 162, "cur_advance_by_k3": 63, "cur_advance_k3": 45, "cur_eat_char_k3": 40, "cur_eat_while_k3": 37, "cur_peek_k3": 40, "lx_single_quoted_esc_k5": 161,
     "lx_unrestricted_k2": 146, "lx_stat_opts_string_k2": 134, "lx_arg_value_scan_k2": 259, "lx_finalize_": 280, "twin_lx_finalize": 60,
     "lx_token_expect_symbol": 100, "lx_token_expect_semi": 80, "lx_token_ws_only": 127, "lx_token_make_checkpoint": 87, "lx_token_macro_def_name": 100,
     "lx_preload_default": 126, "lx_preload_in_arg_value": 120, "lx_maybe_args_or_label": 78, "lx_label_sep": 65, "lx_numeric_literal": 50,
@@ -283,8 +283,8 @@ PRIMARY = [
     ("buf_refines_shadow_mutators", ["C02", "C07"]), ("buf_refines_shadow_observers", ["C02", "C15"]), ("buf_refines_shadow_insert", ["C02", "C18"]),
     ("buf_add_token_nightly", ["C19", "C02"]), ("buf_bulk_vs_accessors", ["C05", "C17"]), ("twin_buf", ["C05"]), ("buf_accessors_total", ["C02", "C03", "C04"]),
     ("buf_line_col_vs_text", ["C04", "C17", "C02", "C03"]), ("buf_into_detached", ["C02", "C03", "C04"]), ("buf_checkpoint_rollback", ["C02", "C04", "C07"]),
-    ("lx_ws_k2", ["C04", "C06", "C03"]), ("lx_cstyle_comment_k4", ["C04", "C06", "C03", "C11"]), ("lx_macro_comment_k4", ["C04", "C06"]),
-    ("lx_single_quoted_k3", ["C07", "C06", "C16", "C04", "C11"]), ("lx_single_quoted_esc_k5", ["C07", "C16"]),
+    ("lx_ws_k2", ["C03"]), ("lx_ws_k3", ["C04", "C06", "C03", "C11"]), ("lx_cstyle_comment_k4", ["C03"]), ("lx_cstyle_comment_k5", ["C04", "C06", "C11"]), ("lx_macro_comment_k4", ["C03"]), ("lx_macro_comment_k5", ["C04", "C06"]),
+    ("lx_single_quoted_k3", ["C04", "C11"]), ("lx_single_quoted_k4", ["C07", "C06", "C16"]), ("lx_single_quoted_esc_k5", ["C07", "C16"]),
     ("lx_unrestricted_k2", ["C13", "C06"]), ("lx_stat_opts_string_k2", ["C13", "C14"]), ("lx_arg_value_scan_k2", ["C13", "C04"]),
     ("lx_finalize_", ["C10", "C14"]), ("lx_finalize_nested_str_p0", ["C10", "C14", "C01", "C09"]), ("lx_finalize_if_paren_p1", ["C10", "C14", "C02", "C09"]),
     ("lx_finalize_scan_p1", ["C10", "C14", "C01", "C02"]), ("twin_lx_finalize", ["C10", "C14"]),
